@@ -267,6 +267,11 @@ def _perm(spec, ctx, R):
         unique = n >= m - 1
         site = "square" if m == n else ("tall" if m > n else "wide")
         judge(ctx, R, A, site, tags=["forced_pivot_order"], expect_pi=pi, unique=unique)
+        if variant == "generic":
+            # the same forced pivot order on an exactly (power of two) scaled copy: pivoting decisions must not depend on the scale
+            # (2^-30 ~ 1e-9 and 2^-40 ~ 1e-12 stay far above the routine's absolute zero-pivot threshold 1e-15; 2^30 large)
+            for p2 in (-30, -40, 30):
+                judge(ctx, R, A * 2.0 ** p2, site, tags=["forced_pivot_order", "scaled_2^%d" % p2], expect_pi=pi, unique=unique)
     if m == 3 and n == 3 and pi == [1, 2, 0]:
         ctx.sample({"m": m, "n": n, "pi": pi, "A": A, "note": "3-cycle forced by A = P^T L U"})
 
@@ -289,7 +294,7 @@ def _random(spec, ctx, R):
         if embed.rank(A) < min(m, n):
             A = A + refq.diagq(np.full(min(m, n), 7.0), m, n)
     elif cls == "scaled_small":
-        A = refq.randq(rng, m, n) * 1e-6
+        A = refq.randq(rng, m, n) * float(rng.choice([1e-6, 1e-9, 1e-12]))
     elif cls == "scaled_big":
         A = refq.randq(rng, m, n) * 1e6
     elif cls == "pure_imag":
